@@ -61,8 +61,18 @@ def gen_parts(rng, quick):
         parts = [rnd(rng.randrange(0, 8)) if rng.random() < 0.6 else '' for _ in range(nparts)]
         kind = 'with-empty'
     else:
-        # disjoint alphabets: certainly no overlap
-        parts = [''.join(rng.choice('abc' if i % 2 == 0 else 'xyz') for _ in range(rng.randrange(1, 8))) for i in range(nparts)]
+        # pairwise disjoint alphabets, one per part: certainly no overlap (no suffix of the text so far shares a single character
+        # with a prefix of the next part); neighbouring alphabets may differ in letter case only ('NO' then 'no.'); empty parts between
+        pool = [('ABC', 'abc'), ('xyz', 'XYZ'), ('012', ',.;')]
+        rng.shuffle(pool)
+        alph = [x for pr in pool for x in (pr if rng.random() < 0.5 else pr[::-1])][:nparts]
+        parts = [''.join(rng.choice(a) for _ in range(rng.randrange(1, 8))) for a in alph]
+        for i in range(1, len(parts)):
+            if alph[i].lower() == alph[i - 1].lower() and rng.random() < 0.8:
+                k = rng.randrange(1, len(parts[i - 1]) + 1)
+                parts[i] = parts[i - 1][-k:].swapcase() + parts[i]   # begins with the previous part's ending in the other case
+        if len(parts) >= 2 and rng.random() < 0.2:
+            parts.insert(rng.randrange(1, len(parts)), '')
         kind = 'disjoint'
     extra = [rng.choice([0, 0, 1, 3]) for _ in parts]
     return kind, parts, extra
@@ -103,7 +113,9 @@ def oracle(ctx, loe, kind, parts, extra, res_t, res_l):
             ctx.violation('prefix:' + tag, 'result does not begin with the first part less half the overlap', inp, res_t)
     if res_l.shape[0] != len(res_t):
         ctx.violation('logit-rows:' + tag, 'merged logits do not have one row per merged character', inp, int(res_l.shape[0]), len(res_t))
-    if all(o == 0 for o in overlaps) and res_t != ''.join(parts):
+    if kind == 'disjoint' and res_t != ''.join(parts):
+        ctx.violation('concat:disjoint', 'parts that share no character (so no overlap) are not concatenated unchanged', inp, res_t, ''.join(parts))
+    elif all(o == 0 for o in overlaps) and res_t != ''.join(parts):
         ctx.violation('concat:' + tag, 'parts without overlap are not concatenated unchanged', inp, res_t, ''.join(parts))
     return overlaps
 
